@@ -378,7 +378,7 @@ def dict_method(I, d, name, args, kwargs, node):
 def set_method(I, s, name, args, kwargs, node):
     sx = _sx()
     if name == "add":
-        if not concrete(args[0]) and not isinstance(args[0], (SObj, SOpaque)):
+        if not concrete(args[0]) and not isinstance(args[0], (SObj, SOpaque, z3.ExprRef)):
             raise SymError("set.add of symbolic value")
         I.note_write(s)
         s.add(args[0])
